@@ -189,10 +189,14 @@ def body_soak(rep, case):
         try:
             port = rig.ports[0]
             junk = [p for p in (pattern(n, n) for n in (165, 40, 168, 1, 159, 300)) if not refb.gate(p)]
-            for i in range(case["n"]):
-                await rig.send(port, junk[i % len(junk)])
-                if i % 8192 == 8191 and (rig.warnings_so_far() or rig.loop_errors or rig.callbacks):
-                    break
+            i = 0
+            try:
+                for i in range(case["n"]):
+                    await rig.send(port, junk[i % len(junk)])
+                    if i % 8192 == 8191 and (rig.warnings_so_far() or rig.loop_errors or rig.callbacks):
+                        break
+            except udptx.DeliveryStopped:
+                return [port], noise(rig), quiet(rig), i + 1
             dead = await rig.barrier()
             return dead, noise(rig), quiet(rig), i + 1
         finally:
